@@ -63,3 +63,75 @@ func TestProbePartialReinject(t *testing.T) {
 	h.fc.quiesce(h.pool)
 	show(h, "after reorg A1->B1 (t1 priced 1 < pool price 5)")
 }
+
+func TestProbePricedDup(t *testing.T) {
+	logging.Root().SetHandler(logging.DiscardHandler())
+	c, _ := kit.New("C20", "quick", 1, 0, 1, "", "plain", "/tmp/c20probe/out2.jsonl")
+	r := rand.New(rand.NewSource(3))
+	cfg := poolCfg{AccountSlots: 64, GlobalSlots: 4096, AccountQueue: 256, GlobalQueue: 1024, PriceLimit: 1, PriceBump: 10, Loose: true}
+	h, err := newHist(c, r, 2, cfg)
+	if err != nil {
+		t.Fatal(err)
+	}
+	defer h.close()
+	base := h.fc.headInfo()
+	fmt.Println("balances:", base.truth[h.addrs[0]].bal, base.truth[h.addrs[1]].bal)
+	var txs []*types.Transaction
+	for n := uint64(0); n < 10; n++ {
+		txs = append(txs, h.mk(&txSpec{From: 0, Nonce: n, Price: 10, Gas: 21000, Value: 1, To: 1}))
+	}
+	tt := h.mk(&txSpec{From: 1, Nonce: 0, Price: 2, Gas: 21000, Value: 1, To: 0})
+	fmt.Println(h.pool.AddRemotesSync(append(txs, tt)))
+	show(h, "11 pooled")
+	a1, _ := h.fc.build(base, []*types.Transaction{tt}, nil, 1000000)
+	h.fc.setHead(a1)
+	h.fc.quiesce(h.pool)
+	show(h, "tt mined in A1")
+	b1, _ := h.fc.build(base, nil, nil, 1000000)
+	h.fc.setHead(b1)
+	h.fc.quiesce(h.pool)
+	show(h, "reorg to empty B1: tt re-injected")
+	h.pool.SetGasPrice(big.NewInt(5))
+	show(h, "after SetGasPrice(5)")
+}
+
+func TestProbeNonceBelow(t *testing.T) {
+	logging.Root().SetHandler(logging.DiscardHandler())
+	c, _ := kit.New("C20", "quick", 1, 0, 1, "", "plain", "/tmp/c20probe/out3.jsonl")
+	for seed := int64(1); seed < 50; seed++ {
+		r := rand.New(rand.NewSource(seed))
+		cfg := poolCfg{AccountSlots: 4, GlobalSlots: 2, AccountQueue: 4, GlobalQueue: 1, PriceLimit: 1, PriceBump: 10}
+		h, err := newHist(c, r, 3, cfg)
+		if err != nil {
+			t.Fatal(err)
+		}
+		base := h.fc.headInfo()
+		ok := true
+		for _, a := range h.addrs {
+			if base.truth[a].bal.Int64() < 1000000 {
+				ok = false
+			}
+		}
+		if !ok {
+			h.close()
+			continue
+		}
+		x := h.mk(&txSpec{From: 2, Nonce: 0, Price: 10, Gas: 21000, Value: 1, To: 1})
+		a1, _ := h.fc.build(base, []*types.Transaction{x}, nil, 1000000)
+		h.fc.setHead(a1)
+		h.fc.quiesce(h.pool)
+		a0 := h.mk(&txSpec{From: 0, Nonce: 0, Price: 1, Gas: 21000, Value: 1, To: 1})
+		b0 := h.mk(&txSpec{From: 1, Nonce: 0, Price: 10, Gas: 21000, Value: 1, To: 0})
+		b1 := h.mk(&txSpec{From: 1, Nonce: 1, Price: 10, Gas: 21000, Value: 1, To: 0})
+		fmt.Println(h.pool.AddRemotesSync([]*types.Transaction{a0, b0, b1}))
+		show(h, "at A1: 3 pooled (= GlobalSlots 2 + GlobalQueue 1)")
+		f := h.mk(&txSpec{From: 0, Nonce: 0, Price: 10, Gas: 21000, Value: 2, To: 1})
+		bb, _ := h.fc.build(base, []*types.Transaction{f}, nil, 1000000)
+		h.fc.setHead(bb)
+		h.fc.quiesce(h.pool)
+		show(h, "after reorg to B1 (contains a foreign nonce-0 tx of account 0; x re-injected into the full pool)")
+		fmt.Println("Nonce(acct0) =", h.pool.Nonce(h.addrs[0]), " chain nonce =", h.fc.headInfo().truth[h.addrs[0]].nonce)
+		h.close()
+		break
+	}
+}
